@@ -44,6 +44,15 @@ Fixpoint first_chain_b (c : nat) (b : list tree) : bool :=
   | S c' => match b with Loop b' :: _ => first_chain_b c' b' | _ => false end
   end.
 
+(* OpenMP directives of a subtree that are not below another OpenMP region of that subtree *)
+Fixpoint close_omp (t : tree) : list nkind :=
+  match t with
+  | Dir d _ b => if mem (ND d) omp_regions then [ND d] else flat_map close_omp b
+  | SDir OMPTaskwait => [NS OMPTaskwait]
+  | Loop b | If b => flat_map close_omp b
+  | _ => []
+  end.
+
 Definition cc_node (rk : list nkind) (p : list nkind * tree) : list (ccrule * nkind * option nkind) :=
   let anc := fst p in let n := snd p in
   let k := kind_of n in
@@ -87,7 +96,17 @@ Definition cc_node (rk : list nkind) (p : list nkind * tree) : list (ccrule * nk
    | _ => []
    end) ++
   (if mem k [NLeaf LReturn] && any_in (omp_regions ++ acc_regions) anc
-   then mk CCBranch (nearest (omp_regions ++ acc_regions) anc) else []).
+   then mk CCBranch (nearest (omp_regions ++ acc_regions) anc) else []) ++
+  (* a target region with a nested teams construct must contain no other directive *)
+  (match n with
+   | Dir OMPTarget _ b =>
+       let ds := flat_map close_omp b in
+       if mem (ND OMPTeamsParDo) ds && (2 <=? length ds)
+       then [(CCTeams, ND OMPTeamsParDo, Some (ND OMPTarget))] else []
+   | _ => []
+   end) ++
+  (* compute construct in a routine marked `acc routine` *)
+  (if mem k acc_compute && mem (NS ACCRoutine) rk then mk CCAccNested (Some (NS ACCRoutine)) else []).
 
 Definition cc_routine_pos (r : routine) : list (ccrule * nkind * option nkind) :=
   let rest := match r with SDir ACCRoutine :: r' => r' | _ => r end in
